@@ -5,6 +5,7 @@ error, the history is linearizable with respect to the map, rate-limited writers
 -/
 import Driver.Common
 import Sth.Model.Multihash
+import Sth.Model.Conc
 
 namespace Driver.Sched
 open Sth Driver
@@ -25,6 +26,7 @@ structure St where
   lastHist : List HOp := []
   finalSpecs : List (List (Bytes × Bytes)) := []   -- final states of the linearizations found
   profile : String := ""
+  concFinal : Option Conc.State := none      -- final state of the section model when its replay agreed
 deriving Repr
 
 def digestOf (khex : String) : Bytes := (mhDecode ((fromHex khex).getD [])).getD []
@@ -52,6 +54,112 @@ def specOp (imm : Bool) (m : List (Bytes × Bytes)) (op : String) : List (Bytes 
   | ["size", k] => (m, match sget m (digestOf k) with | some v => s!"n{v.length}" | none => "absent")
   | ["rm", k] => (match sget m (digestOf k) with | some _ => (sdel m (digestOf k), "true") | none => (m, "false"))
   | _ => (m, "ok")      -- flush, pgc, igc, close, sizes, fcsize: no effect on the map, must return ok
+
+/-! ### replay of the real schedule on the section-level model Sth/Model/Conc.lean -/
+
+def concOfOp (op : String) : Option Conc.Op :=
+  match op.splitOn ":" with
+  | ["put", k, v] => some (.put (digestOf k) ((fromHex v).getD []))
+  | ["put", k] => some (.put (digestOf k) [])
+  | ["get", k] => some (.get (digestOf k))
+  | ["has", k] => some (.has (digestOf k))
+  | ["size", k] => some (.size (digestOf k))
+  | ["rm", k] => some (.rm (digestOf k))
+  | _ => none
+
+def concResStr : Conc.Res → String
+  | .ok => "ok"
+  | .keyExists => "err-key-exists"
+  | .err => "err"
+  | .found v => "v" ++ toHex v
+  | .absent => "absent"
+  | .bool b => toString b
+  | .sizeOf n => s!"n{n}"
+
+/-- the hook point at which the real thread has completed the section the model thread is about to run -/
+def concCompletes (pc : Conc.Pc) (point : String) : Bool :=
+  match pc with
+  | .idle => point == "index.get.info_read"
+  | .putLooked .. => point == "store.put.primary_read_done"
+  | .putRead .. => point == "store.put.primary_put_done"
+  | .putStored _ _ none _ => point == "store.put.done"
+  | .putStored _ _ (some _) _ => point == "store.put.index_done"
+  | .putIndexed .. => point == "store.put.done"
+  | .readLooked .. => false
+  | .rmLooked .. => point == "store.remove.primary_read_done"
+  | .rmRead .. => point == "store.remove.index_done"
+  | .rmIndexed .. => false
+
+/-- sections that end with the call's return -/
+def concEndsAtReturn (pc : Conc.Pc) : Bool :=
+  match pc with
+  | .putLooked .. => true            -- ErrKeyExists / same value
+  | .putStored _ _ (some _) _ => true -- Index.Update failed
+  | .readLooked .. => true
+  | .rmIndexed .. => true
+  | _ => false
+
+structure CSim where
+  s : Conc.State := {}
+  names : List String := []
+  cur : List (String × Nat) := []     -- thread ↦ op it was last released into
+  bad : List String := []
+  steps : Nat := 0
+  predictedErr : Bool := false
+  predictedLost : Bool := false       -- Index.Put on a key that is present by now (the Put is lost)
+deriving Repr
+
+def concInit (imm : Bool) (spec : List (Bytes × Bytes)) (programs : List (String × List String)) : Option CSim :=
+  let model := programs.filter fun (_, ops) => ops.all fun o => (concOfOp o).isSome
+  let others := programs.filter fun (_, ops) => !(ops.all fun o => (concOfOp o).isSome)
+  -- threads that only flush do not touch the abstract state; collectors are not modelled
+  if others.any (fun (_, ops) => ops.any fun o => !(o == "flush")) then none else
+  let pri := spec.map fun (g, v) => (g, v)
+  let idx := (List.range spec.length).zip spec |>.map fun (i, (g, _)) => (g, i)
+  some { s := { imm := imm, idx := idx, pri := pri,
+                threads := model.map fun (_, ops) => { prog := ops.filterMap concOfOp } },
+         names := model.map (·.1) }
+
+def concEvent (c : CSim) (ev : String) : CSim :=
+  let tidx (t : String) : Option Nat := c.names.findIdx? (· == t)
+  match ev.splitOn ":" with
+  | [t, "go", pt] =>
+    if pt.startsWith "op" ∧ pt.endsWith ".begin" then
+      let n := ((pt.drop 2).toString.splitOn ".").headD "" |>.toNat?.getD 0
+      { c with cur := (t, n) :: c.cur.filter (·.1 ≠ t) }
+    else c
+  | [t, "ret", n, res] =>
+    match tidx t with
+    | none => c
+    | some i =>
+      let n := n.toNat?.getD 0
+      let th := (c.s.threads[i]?).getD {}
+      -- finish the section that ends with the return
+      let (s1, bad1) :=
+        if th.out.length > n then (c.s, [])
+        else if concEndsAtReturn th.pc then ((Conc.step c.s i).getD c.s, [])
+        else (c.s, [s!"thread {t} call {n} returned [{res}] while the model is at {repr th.pc}"])
+      let th1 := (s1.threads[i]?).getD {}
+      let bad2 := match th1.out[n]? with
+        | some r => if concResStr r = res then [] else [s!"thread {t} call {n}: model=[{concResStr r}] impl=[{res}]"]
+        | none => if bad1.isEmpty then [s!"thread {t} call {n} returned [{res}] but the model's call has not returned ({repr th1.pc})"] else []
+      { c with s := s1, bad := c.bad ++ bad1 ++ bad2, steps := c.steps + 1,
+               predictedErr := c.predictedErr || th1.out[n]? == some Conc.Res.err }
+  | _ =>
+    match ev.splitOn "@" with
+    | [t, pt] =>
+      match tidx t with
+      | none => c
+      | some i =>
+        let th := (c.s.threads[i]?).getD {}
+        let curOp := ((c.cur.find? (·.1 = t)).map (·.2)).getD 0
+        if th.out.length = curOp ∧ concCompletes th.pc pt then
+          let lost := match th.pc with
+            | .putStored k _ none _ => (Conc.lookup c.s.idx k).isSome
+            | _ => false
+          { c with s := (Conc.step c.s i).getD c.s, steps := c.steps + 1, predictedLost := c.predictedLost || lost }
+        else c
+    | _ => c
 
 def isMutator (op : String) : Bool := op.startsWith "put:" || op.startsWith "rm:"
 def keyOfOp (op : String) : String := ((op.splitOn ":").drop 1).headD ""
@@ -142,13 +250,26 @@ def step (st : St) (l : Line) : St × List Msg :=
         else some (Msg.prop s!"writer {t} waits for a flush notice and no flush ran after its wait began (nothing will release it)")
     let otherStuck := stuck.filter fun s => !s.endsWith "/store.flushtick.waiting"
     let pStuck := otherStuck.map fun s => Msg.prop s!"thread never finished: {s}{known}"
-    let flags := [Msg.flag "schedule"] ++
+    -- (4) the section-level model run on the same schedule returns what the real calls returned (named hook points only:
+    -- with lock acquisitions as extra scheduling points the position of a section inside its stretch is not determined)
+    let (concMsgs, concFinal) : List Msg × Option Conc.State :=
+      if l.args.get "locks" = "1" ∨ st.profile = "c12" then ([], none) else
+      match concInit st.imm st.spec st.programs with
+      | none => ([], none)
+      | some c0 =>
+        let c := evs.foldl concEvent c0
+        ((c.bad.take 3).map (fun b => Msg.corr s!"section model: {b}") ++
+        (if c.bad.isEmpty ∧ c.steps > 0 then [Msg.flag "conc-model-agrees"] else []) ++
+        (if c.predictedErr then [Msg.flag "conc-model-predicts-update-error"] else []) ++
+        (if c.predictedLost then [Msg.flag "conc-model-predicts-lost-put"] else []),
+        if c.bad.isEmpty ∧ stuck.isEmpty ∧ c.s.threads.all (fun t => t.prog.isEmpty) then some c.s else none)
+    let flags := concMsgs ++ [Msg.flag "schedule"] ++
       (if started.any (fun a => started.any fun b => a.thread ≠ b.thread && overlap a b) then [Msg.flag "overlapping-calls"] else []) ++
       (if mutOverlap then [Msg.flag "overlapping-mutators"] else []) ++
       (if gcOverlap then [Msg.flag "gc-overlaps-call"] else []) ++
       (if evs.any (·.endsWith "@store.flushtick.waiting") then [Msg.flag "writer-waited"] else []) ++
       (if evs.any (·.endsWith "@store.flushtick.released") then [Msg.flag "writer-released"] else [])
-    ({ st with lastHist := hist, finalSpecs := finals }, pErr ++ pLin ++ pWait ++ pStuck ++ flags)
+    ({ st with lastHist := hist, finalSpecs := finals, concFinal := concFinal }, pErr ++ pLin ++ pWait ++ pStuck ++ flags)
   | "sfinal" =>
     let ra := resArgs l.res
     let keys := (l.args.get "k").splitOn ","
@@ -173,7 +294,13 @@ def step (st : St) (l : Line) : St × List Msg :=
       (fl.filter (fun x => cur.contains x)).map (fun x => Msg.prop s!"location {x} is still current and on the freelist{known}") ++
       (if fl.eraseDups.length = fl.length then [] else [Msg.prop s!"a location is on the freelist twice: {fl.filter (fun x => (fl.filter (· = x)).length > 1) |>.eraseDups}{known}"]) ++
       [Msg.flag "handover-accounting"] ++ (if fl.isEmpty then [] else [Msg.flag "freelist-nonempty"])
-    (st, acctMsgs ++ (if head = "ok" then [] else [Msg.prop s!"flush after the schedule failed: {l.res}"]) ++
+    -- the section model's final contents are what the real store holds after quiescence
+    let concCmp : List Msg := match st.concFinal with
+      | none => []
+      | some cs =>
+        let exp := keys.map fun k => match Conc.contents cs (digestOf k) with | some v => "v" ++ toHex v | none => "absent"
+        if exp = reads then [Msg.flag "conc-model-final-agrees"] else [Msg.corr s!"section model: final contents model=[{",".intercalate exp}] impl=[{ra.get "reads"}]"]
+    (st, concCmp ++ acctMsgs ++ (if head = "ok" then [] else [Msg.prop s!"flush after the schedule failed: {l.res}"]) ++
          (if okFinal then [] else [Msg.prop s!"contents after all activity stopped [{ra.get "reads"}] equal no linearization of the calls{known}"]))
   | _ => (st, [.corr s!"unknown op {l.op}"])
 
